@@ -1,5 +1,6 @@
 import Restful.Lemmas.TieImpVocab
 import Restful.Lemmas.TieImpBridge
+import Restful.Lemmas.TieImpTactic
 namespace Restful
 namespace TieImp
 open Imp
@@ -129,6 +130,7 @@ theorem compute_allowed_methods (E : ReEnv) (X : ImpGen.Ext)
     ImpGen.Container_computeAllowedMethods X (some { webServices := svcs.map (fun ws => some (genWS E mk ws)) }) (some { Request := hr })
       = Cors.computeAllowedMethods E svcs hr.path := by
   unfold ImpGen.Container_computeAllowedMethods
+  unfold_gen_helpers
   simp only [deref, Option.bind_eq_bind, Option.bind_some, Option.pure_def]
   rw [T9.outer_loop E hr.path (fun ws => some (genWS E mk ws)) _ ?hf]
   case hf =>
@@ -137,6 +139,8 @@ theorem compute_allowed_methods (E : ReEnv) (X : ImpGen.Ext)
     rw [show (genWS E mk ws).pathExpr = genPE E ws.rootPath from rfl,
         show (genWS E mk ws).routes = ws.routes.map (fun rt => mk rt (genPE E rt.relPath)) from rfl]
     unfold T9.outerStep
+    -- (when the per-service part is a helper, its call is bound before the `append`: re-associate)
+    try simp only [Option.bind_assoc]
     refine T9.onMatch_gen E _ _ acc _ _ (fun pe => ⟨fun h0 => ?_, fun caps finalMatch h1 => ?_⟩)
     · simp [h0]
     · simp only [h1, List.isEmpty_cons, Bool.not_false, Bool.not_true, Bool.false_eq_true, if_true, if_false,
